@@ -39,10 +39,12 @@ def plan_for(prop, tier):
                 "race freedom is judged by ThreadSanitizer on fibers switched with no scheduler-induced happens-before"],
             rule="cases: k in {2,3,4,8} (TSan: up to 64) task scripts of loads/lookups/conversions/transition scans/format/parse over 1-5 names "
                  "(healthy, absent, rejected, fixed-offset, UTC) under a per-run chooser (uniform/sticky/PCT/window). A run is non-trivial iff two tasks "
-                 "had overlapping loads of one name or a mutex was contended; distinct = distinct (schedule trace, script) hashes among those",
+                 "had overlapping loads of one name or a mutex was contended (every cold-start run counts: it is the only execution of a fresh process, so statics and singletons are initialised under contention); distinct = distinct (schedule trace, script) hashes among those",
             stages=[
                 dict(kind="worker", name="asan", variant="asan", part="", runs=100000 if q else 2500000, block=1000, hash_mod=50, key_mod=1 if q else 16),
                 dict(kind="worker", name="tsan", variant="tsan", part="", runs=100000 if q else 2000000, block=1000, hash_mod=50, key_mod=1 if q else 16),
+                dict(kind="worker", name="cold-start-tsan", variant="tsan", part="cold", runs=1500 if q else 30000, block=1, hash_mod=25, key_mod=1, extra=["--cold"], recheck_block=1),
+                dict(kind="worker", name="cold-start-asan", variant="asan", part="cold", runs=500 if q else 10000, block=1, hash_mod=25, key_mod=1, extra=["--cold"], recheck_block=1),
                 dict(kind="worker", name="tmpl3-seeded", variant="gzero", part="tmpl3", runs=4000 if q else 40000, block=500, hash_mod=0, key_mod=1, template="k3"),
                 dict(kind="enumerate", name="k3-exhaustive", variant="asan", k=3, names=1, fy=False, template="k3"),
                 dict(kind="enumerate", name="k3-exhaustive-tsan", variant="tsan", k=3, names=1, fy=False),
@@ -86,8 +88,8 @@ def plan_for(prop, tier):
                 "validity of every stored image is known by construction (marker zones whose abbreviation and offset encode the path they were stored at; bad magic; leap-second record; truncated; empty; v1-only; a shipped zone), never by asking cctz",
                 "Android/Fuchsia fall-back paths are absent from every world; names beginning with 'libc:' are not generated (internal test-only interface)",
                 "under injected faults the oracle is relaxed to: model outcome or a clean failure (false, UTC) - never success with wrong data or a wrong name"],
-            rule="part cross: the full product TZDIR(6: unset, empty, valid, nonexistent, trailing slash, relative) x TZ(14: unset, empty, X, :X, ::X, localtime, :localtime, ':', invalid, absolute, fixed-offset, UTC, file:X, :Leap) x LOCALTIME(5) "
-                 "x 34 names (relative, nested, absolute, file:-prefixed, empty, ':'-prefixed, UTC/UTC0/fixed and near misses, directory, unreadable, truncated, leap-second, bad magic, empty file, v1-only, real zone, trailing slash, ./, localtime), "
+            rule="part cross: the full product TZDIR(6: unset, empty, valid, nonexistent, trailing slash, relative) x TZ(14: unset, empty, X, :X, ::X, localtime, :localtime, ':', invalid, absolute, fixed-offset, UTC, file:X, :TruncNL) x LOCALTIME(5) "
+                 "x 37 names (relative, nested, absolute, file:-prefixed, empty, ':'-prefixed, UTC/UTC0/fixed and near misses, directory, unreadable, truncated (in the data, in the footer, closing newline missing), leap-second, bad magic, empty file, v1-only, real zone, trailing slash, ./, localtime), "
                  "each world asking load(name), local_time_zone() and a default-constructed zone, then replayed with a different read chunk size; part random: random worlds of 1-6 ops; part faulted: random worlds with fopen errno faults by open index, "
                  "cookie read errors (EIO/EINTR, persistent or transient) by byte offset, failing seeks, FIFOs and chunk sizes 1..65536. Every world is non-trivial (it resolves at least one name); distinct = distinct (environment, ops, faults, chunk) hashes",
             stages=[
@@ -221,7 +223,7 @@ def execute_plan(prop, tier, seed, plan, say):
             res = R.run_stage(st["variant"], prop, tier, seed, st["part"], st["runs"], st["block"], hash_mod=st.get("hash_mod", 0),
                               key_mod=st.get("key_mod", 1), samples=1, stop=stop, extra=st.get("extra", ()), stop_pred=stop_pred)
             rec = R.determinism_recheck(st["variant"], prop, tier, seed, st["part"], st["runs"], st["block"], st.get("hash_mod", 0), res,
-                                        extra=st.get("extra", ())) if not res.violations else dict(n=0, mismatches=0, skipped="violations present")
+                                        extra=st.get("extra", ()), recheck_block=st.get("recheck_block")) if not res.violations else dict(n=0, mismatches=0, skipped="violations present")
             if rec.get("mismatches"):
                 machinery.append("determinism recheck: %d of %d re-executed runs produced a different log hash (stage %s, runs %s)" % (
                     rec["mismatches"], rec["n"], st["name"], rec.get("mismatch_runs")))
@@ -318,6 +320,12 @@ def report_violation(prop, tier, seed, cls, vs, say):
     classes, raw = R.evaluate_case(variant, case, timeout=300)
     if cls not in classes:
         return dict(machinery="fresh-process replay of run %s did not reproduce %s (got %s)" % (v["run"], cls, classes))
+    if case.get("mode") == "cold":
+        # cold-start cases cannot be executed twice in one process: the same-twice gate uses two fresh processes
+        classes_b, raw_b = R.evaluate_case(variant, case, timeout=300)
+        ha, hb = (raw.get("out") or {}).get("log_hash"), (raw_b.get("out") or {}).get("log_hash")
+        if ha != hb or cls not in classes_b:
+            return dict(machinery="cold-start run %s did not behave identically in two fresh processes (%s vs %s)" % (v["run"], ha, hb))
     small, execs = R.minimise(variant, case, cls)
     classes2, raw2 = R.evaluate_case(variant, small, want_log=True, timeout=300, twice=not v.get("crash"))
     if cls not in classes2:
